@@ -50,7 +50,7 @@ func runC16(k int, rng *Rng) CaseResult {
 	clockNewCase(clockModeFor(cfg))
 	installHooks(stdHooks())
 	w := NewWorld("C16", rng, cfg, caseDir(k, "c16"))
-	w.predict, w.storeWant = true, true
+	w.predict, w.storeWant, w.ownsTransforms = true, true, true
 	defer w.Cleanup()
 	if !w.OpenCreate() {
 		return w.finish(nil, false, nil)
